@@ -24,6 +24,7 @@ from ..util import (
     is_categorical,
     is_pyarrow_backed,
     mean_from_sum_count,
+    pandas_type_from_array,
     parallel_map,
     series_is_numeric,
     series_is_timestamp,
@@ -227,9 +228,12 @@ class GroupBy:
                 )
                 # TODO: estimate number of uniques based on initial slice of array
                 # and do not factorize in chunks when number of uniques is estimated to be large
+                # the chunk-wise route relies on numba, which cannot handle object/string arrays
+                key_kind = getattr(pandas_type_from_array(group_key), "kind", "O")
                 factorize_in_chunks = (
                     factorize_large_inputs_in_chunks
                     and len(group_key) >= THRESHOLD_FOR_CHUNKED_FACTORIZE
+                    and key_kind in "iufmMb"
                 ) or chunked
 
             if factorize_in_chunks:
